@@ -6,8 +6,15 @@
 import Torf.Lemmas.PipelineC04Refuse
 namespace Torf.Pipeline
 
+/-- a step that only moves main's program counter -/
+theorem InvB3.set_main {cfg : Cfg} {s : State} (h : InvB3 cfg s) (m : MPc)
+    (h5 : ∀ r, m = MPc.finished r → s.jan = JPc.done)
+    (h1 : s.jan = JPc.done → m = MPc.collect → none ∈ s.hq) : InvB3 cfg { s with main := m } :=
+  ⟨h.j2, h.jp, h.js1, h.js2, h.jc1, h.jc2, h5, h1, h.h2, h.h3⟩
+
 theorem InvB3.mainG {cfg : Cfg} {s s' : State} (hnv : NonVital cfg) (hB : InvR1 cfg s)
     (h : InvB3 cfg s) (hs : MainStepG cfg s s') : InvB3 cfg s' := by
+  have h0 := h
   obtain ⟨j2, jp, js1, js2, jc1, jc2, m5, h1, h2, h3⟩ := h
   have hjs := hB.jstart
   have htrk0 := hB.trk0
@@ -18,7 +25,9 @@ theorem InvB3.mainG {cfg : Cfg} {s s' : State} (hnv : NonVital cfg) (hB : InvR1 
     cases h' <;>
       (have hm := ‹s.main = _›
        simp [hm, preJan] at hjs
-       constructor <;> grind [q_pop, JPc.done_of, HPc.running, joinTarget_cases])
+       first
+       | (refine h0.set_main _ ?_ ?_ <;> grind [JPc.done_of, joinTarget_cases])
+       | (constructor <;> grind [q_pop, JPc.done_of, HPc.running, joinTarget_cases]))
   | refReader hm hr => obtain ⟨i, _, hi⟩ := hnv _ hr; simp at hi
   | refJanitor hm hr => obtain ⟨i, _, hi⟩ := hnv _ hr; simp at hi
   | refVital hm hr => obtain ⟨i, h1, hi⟩ := hnv _ hr; simp at hi; omega
